@@ -21,7 +21,7 @@ RULE = ("seeded small smooth models (1-3 nodes, one node per type so that initia
 DECIDING = ['trace_calls_checked', 'rows_compared', 'index_checks', 'cutoff_checks', 'adaptive_points_compared',
             'heun_runs', 'euler_runs', 'scipy_runs', 'order_checks', 'durations_with_quotient_just_below_integer', 'oscillator_runs',
             'explicit_time_rows']
-ASSUMPTIONS = ['sampling step is an integer multiple of the step, T an integer multiple of the sampling step',
+ASSUMPTIONS = ['main sweep: sampling step is an integer multiple of the step, T an integer multiple of the sampling step (other durations: probe family of the recorded finding F-C03-duration-not-multiple-of-sampling-step)',
                'cutoff is either 0, a half-way point between samples or exactly representable',
                'Heun on a time-dependent RHS: either stage-time convention accepted']
 CASE_TIMEOUT = 300
@@ -41,6 +41,8 @@ def plan(tier, seed):
     cases += [{'family': 'oscillator', 'cseed': rnd.randrange(1 << 30), 'solver': 'oscillator'} for _ in range(10 if tier == 'quick' else 200)]
     # equations that refer to the time t explicitly: adaptive solvers (main sweep) and fixed-step solvers (recorded finding)
     cases += [{'family': 'explicit_time', 'cseed': rnd.randrange(1 << 30), 'solver': 'scipy'} for _ in range(6 if tier == 'quick' else 80)]
+    fam = 'probe:duration_not_multiple_of_sampling_step' if 'duration_not_multiple_of_sampling_step' in open_risks(PID) else 'duration'
+    cases += [{'family': fam, 'cseed': rnd.randrange(1 << 30), 'solver': sv} for sv in ('euler', 'scipy') for _ in range(3 if tier == 'quick' else 30)]
     fam = 'probe:explicit_time_fixed_step' if 'explicit_time_fixed_step' in open_risks(PID) else 'explicit_time'
     cases += [{'family': fam, 'cseed': rnd.randrange(1 << 30), 'solver': sv} for sv in ('euler', 'heun') for _ in range(4 if tier == 'quick' else 40)]
     return cases
@@ -143,9 +145,55 @@ def run_explicit_time_case(case, ctx):
     return res
 
 
+def run_duration_case(case, ctx):
+    """simulation_time that is a multiple of step_size but NOT of sampling_step_size: the property asks for round(T/dts) rows, row k
+    at time k*dts holding the state at that time."""
+    from pyrates import OperatorTemplate, NodeTemplate, CircuitTemplate
+    rnd = random.Random(case['cseed'])
+    solver = case['solver']
+    a, x0 = round(rnd.uniform(0.5, 3.0), 3), round(rnd.uniform(0.2, 1.0), 3)
+    dt = 0.01
+    m = rnd.choice([2, 3, 4])
+    dts = m * dt
+    nfull = rnd.randint(3, 8)
+    extra = rnd.randint(1, m - 1)
+    T = round((nfull * m + extra) * dt, 10)
+    nrows = int(round(T / dts))
+    mech = {}
+    res = {'features': ['duration_not_multiple_of_sampling_step', solver], 'risk': ['duration_not_multiple_of_sampling_step'],
+           'sig': stable_hash([a, x0, m, nfull, extra, solver]), 'nontrivial': True}
+    try:
+        op = OperatorTemplate(name='d_op', equations=["x' = -a*x"], variables={'x': f'output({x0})', 'a': a})
+        c = CircuitTemplate(name='dc', nodes={'n': NodeTemplate(name='d_node', operators=[op])})
+        kw = {} if solver == 'euler' else {'method': 'RK45', 'rtol': 1e-10, 'atol': 1e-12}
+        try:
+            df = c.run(simulation_time=T, step_size=dt, sampling_step_size=dts, outputs={'x': 'n/d_op/x'}, solver=solver, verbose=False,
+                       clear=True, in_place=False, float_precision='float64', vectorize=False, **kw)
+        except Exception as e:
+            raise observe.Mismatch(f"loud: duration: run(T={T}, step_size={dt}, sampling_step_size={dts}, solver={solver}) raised "
+                                   f"{type(e).__name__}: {e}")
+        got = np.asarray(df.values, dtype=float).ravel()
+        idx = np.asarray(df.index, dtype=float)
+        if got.shape[0] != nrows:
+            raise observe.Mismatch(f"duration: T={T}, sampling_step_size={dts}: {got.shape[0]} rows, round(T/dts) = {nrows}")
+        if not np.allclose(idx, np.arange(nrows) * dts, rtol=0, atol=1e-9):
+            raise observe.Mismatch(f"duration: T={T}, sampling_step_size={dts}, solver={solver}: index {idx[:4].round(5).tolist()}... is not k*{dts}")
+        exp = x0 * (1 - a * dt) ** (np.arange(nrows) * m) if solver == 'euler' else x0 * np.exp(-a * np.arange(nrows) * dts)
+        if not np.allclose(got, exp, rtol=1e-6, atol=1e-9):
+            raise observe.Mismatch(f"duration: T={T}, sampling_step_size={dts}, solver={solver}: values {got[:3].tolist()} expected {exp[:3].tolist()}")
+        mech['rows_compared'] = int(nrows)
+        res.update(status='ok', symptom='', mech=mech)
+    except observe.Mismatch as e:
+        s2 = str(e)
+        res.update(status='violation', symptom=('silent: ' if 'loud' not in s2 else '') + s2, mech=mech, spec={'T': T, 'dts': dts})
+    return res
+
+
 def run_case(case, ctx):
     if case.get('family') in ('explicit_time', 'probe:explicit_time_fixed_step'):
         return run_explicit_time_case(case, ctx)
+    if case.get('family') in ('duration', 'probe:duration_not_multiple_of_sampling_step'):
+        return run_duration_case(case, ctx)
     rnd = random.Random(case['cseed'])
     mech = {}
     monitors.reset()
